@@ -13,6 +13,7 @@ import (
 	"testing/synctest"
 	"time"
 
+	ubackoff "github.com/aperturerobotics/util/backoff"
 	"github.com/aperturerobotics/util/keyed"
 	cbackoff "github.com/cenkalti/backoff/v4"
 	"verif/harness/ctl"
@@ -160,6 +161,17 @@ func newSys(w *hist.W, cfg []uint64) *sys {
 	if cfg[2] == 1 {
 		durs := append([]uint64{}, cfg[3:]...)
 		opts = append(opts, keyed.WithBackoff[uint64, uint64](func(uint64) cbackoff.BackOff { return &scriptBO{durs: durs} }))
+	}
+	if cfg[2] == 2 {
+		// keyed.WithRetry with a configuration of the backoff package (constant kind, cfg[3] ms, 0 = unset): every record gets
+		// its own object from conf.Construct(); the model computes the script from its model of that package
+		var d uint64
+		if len(cfg) > 3 {
+			d = cfg[3]
+		}
+		opts = append(opts, keyed.WithRetry[uint64, uint64](&ubackoff.Backoff{BackoffKind: ubackoff.BackoffKind_BackoffKind_CONSTANT,
+			Constant: &ubackoff.Constant{Interval: uint32(d)}}))
+		w.Count("cfg.real_backoff_object", 1)
 	}
 	if s.variant {
 		s.rc = keyed.NewKeyedRefCount(ctor, opts...)
@@ -1045,6 +1057,10 @@ func randomCfg(r *rand.Rand) []uint64 {
 	case 2:
 		cfg[2] = 1
 		cfg = append(cfg, 100, 200)
+	}
+	if cfg[2] == 1 && r.IntN(4) == 0 {
+		// the back-off objects built by keyed.WithRetry from a backoff.Backoff configuration (constant kind)
+		cfg = append(cfg[:2], 2, []uint64{100, 250, 700}[r.IntN(3)])
 	}
 	return cfg
 }
